@@ -2,6 +2,8 @@ package main
 
 import (
 	"fmt"
+	"go/token"
+	"go/types"
 	"strings"
 
 	"golang.org/x/tools/go/ssa"
@@ -244,5 +246,125 @@ func rulePeerChain(c *Ctx, r *Report) {
 			return isCallResult(v, nameIs("internal/handshake.rawCertificatesFromCertificate"))
 		})
 		r.Check(ok, rule, short(st.Fn)+":1.3", c.ipos(st.Instr), "from rawCertificatesFromCertificate(peer's Certificate)", "DTLS 1.3 peer chain does not come from the peer's Certificate message")
+	}
+}
+
+// ruleSRTPCommitMatchesWire (C01): the DTLS 1.2 server commits an SRTP decision and then sends a
+// ServerHello that an application hook may have rewritten. What it committed must be what went on
+// the wire: validateServerSRTP succeeds only if every field of the decision derived from the final
+// ServerHello equals the same field of the committed decision.
+func ruleSRTPCommitMatchesWire(c *Ctx, r *Report) {
+	const rule = "srtp-commit-matches-wire"
+	const tDec = "internal/negotiation.SRTPDecision"
+	fn := c.need(r, rule, pkgF12+".validateServerSRTP")
+	if fn == nil {
+		return
+	}
+	r.Sites += len(fn.Blocks)
+	okRet := successReturn(fn)
+	if okRet == nil {
+		r.Unk(rule, short(fn), c.pos(fn.Pos()), "no unique nil return")
+		return
+	}
+	named := c.Named("internal/negotiation", "SRTPDecision")
+	if named == nil {
+		r.Unk(rule, short(fn), c.pos(fn.Pos()), "type SRTPDecision not found")
+		return
+	}
+	st, _ := named.Underlying().(*types.Struct)
+	// the two operands: the decision computed from the final message, and the committed one (a parameter)
+	// what a local variable holds: the value of its single whole-variable store
+	held := func(base ssa.Value) ssa.Value {
+		al, ok := stripLoad(base).(*ssa.Alloc)
+		if !ok {
+			al, ok = base.(*ssa.Alloc)
+		}
+		if !ok {
+			return base
+		}
+		var v ssa.Value
+		for _, ref := range *al.Referrers() {
+			if st, isSt := ref.(*ssa.Store); isSt && st.Addr == ssa.Value(al) {
+				if v != nil {
+					return base
+				}
+				v = st.Val
+			}
+		}
+		if v == nil {
+			return base
+		}
+		return v
+	}
+	isGot := func(base ssa.Value) bool {
+		return isCallResult(held(base), nameHasSuffix("negotiation.ValidateSRTPSelection"))
+	}
+	isWant := func(base ssa.Value) bool {
+		_, ok := held(base).(*ssa.Parameter)
+		return ok
+	}
+	// the fields that travel in the use_srtp selection
+	wire := map[string]bool{}
+	if sel := c.Named("pkg/protocol/extension", "SRTPSelection"); sel != nil {
+		if ss, ok := sel.Underlying().(*types.Struct); ok {
+			for i := 0; i < ss.NumFields(); i++ {
+				wire[fieldName(ss.Field(i))] = true
+			}
+		}
+	}
+	if len(wire) == 0 {
+		r.Unk(rule, short(fn), c.pos(fn.Pos()), "extension.SRTPSelection not found")
+		return
+	}
+	for i := 0; i < st.NumFields(); i++ {
+		f := fieldName(st.Field(i))
+		if !wire[f] {
+			continue
+		}
+		good := false
+		for _, b := range fn.Blocks {
+			for _, in := range b.Instrs {
+				var x, y ssa.Value
+				var test ssa.Value
+				switch t := in.(type) {
+				case *ssa.BinOp:
+					if t.Op != token.EQL && t.Op != token.NEQ {
+						continue
+					}
+					x, y, test = t.X, t.Y, t
+				case *ssa.Call:
+					n := calleeName(&t.Call)
+					if n != "bytes.Equal" && n != "crypto/subtle.ConstantTimeCompare" && n != "slices.Equal[[]byte]" {
+						continue
+					}
+					x, y, test = t.Call.Args[0], t.Call.Args[1], t
+				default:
+					continue
+				}
+				ox, fx, bx, okx := fieldLoad(x)
+				oy, fy, by, oky := fieldLoad(y)
+				if !okx || !oky || ox != tDec || oy != tDec || fx != f || fy != f {
+					continue
+				}
+				if !((isGot(bx) && isWant(by)) || (isGot(by) && isWant(bx))) {
+					continue
+				}
+				// a mismatch must not reach the nil return
+				mismatch := vBool(false)
+				if bo, isBo := test.(*ssa.BinOp); isBo && bo.Op == token.NEQ {
+					mismatch = vBool(true)
+				}
+				w := (&Walk{Fn: fn, Assume: func(v ssa.Value) (Val, bool) {
+					if v == test {
+						return mismatch, true
+					}
+					return unknown, false
+				}}).FromEntry()
+				if !w.Reached[okRet] {
+					good = true
+				}
+			}
+		}
+		r.Check(good, rule, short(fn)+":"+f, c.pos(fn.Pos()), "the committed "+f+" must equal the one in the final ServerHello", "validateServerSRTP succeeds although the committed SRTP "+f+" differs from the one in the ServerHello that is sent (a ServerHello hook can make the two sides commit different values while the handshake completes)")
 	}
 }
